@@ -7,6 +7,7 @@
    transfer of the sender's CURRENT revision with its ancestry (rev_diff, then PutExistingRev with
    noconflicts; the active side resolves with DefaultConflictResolver).  [mkdig] is md5 over
    (parent id, body); the only fact used about it is collision freedom. *)
+From SG Require Import C10.HLV C10.HLVProofs C06.VV C06.VVProofs C06.VVInv C06.VVConv.
 From SG Require Import Base.Prelude C04.RevId C04.RevTree C04.WfProofs
   C04.PushProofs C06.Replication C06.ResolverProofs C06.InvProofs C06.TransferProofs C06.ConvDefs C06.ConvThm C06.SysProofs
   C06.UnionProofs.
@@ -96,6 +97,121 @@ Definition C06_isgr_default_converges_full_statement : Prop :=
   let s := run mkdig (run mkdig sys0 ops) [Pull d; Push d] in
   obs (fst (s d)) = obs (snd (s d)).
 
+(* ======== VERSION-VECTOR sub-protocol (v4, the default) with the default "last write wins" resolver ========
+   Model: VV.v (vector algebra: the C10 model of db.HybridLogicalVector).  Two peers with fixed roles: VA owns the
+   replication and the LWW resolver, VB never resolves.  VEdit / VDelete = local writes (hlc.Now + AddVersion; the wall
+   clock reading [phys] is an arbitrary input of every write, so two sources MAY generate equal values),
+   VPull d / VPush d = one atomic transfer of the sender's current version (CheckChangeVersion, then
+   PutExistingCurrentVersion: IsInConflict, tombstone-over-tombstone, DefaultLWWConflictResolutionType,
+   resolveRemoteWinsHLV / resolveLocalWinsHLV).  All theorems quantify over ALL operation lists. *)
+
+(* ---- convergence: after ANY history -- edits, deletes, resurrections, pulls, pushes on both peers, any number of
+   documents, conflicts of any shape, resolutions not yet pushed back, EQUAL current-version values included --
+   Pull d; Push d leaves both peers with the same current version, body and tombstone flag for d ---- *)
+Theorem C06_lww_converges : forall ops d,
+  let s := vrun (vrun vsys0 ops) [VPull d; VPush d] in
+  vobs (vdoc_of s VA d) = vobs (vdoc_of s VB d).
+Proof. exact lww_converges. Qed.
+Print Assumptions C06_lww_converges.
+
+(* ---- the single winner: when neither copy has seen the other's current version (and they are not two tombstones),
+   the pull resolves the conflict by the LWW policy and after the push BOTH sides show the winner's current version,
+   body and tombstone flag ---- *)
+Theorem C06_lww_winner_adopted : forall ops d x y,
+  let s := vrun vsys0 ops in
+  vdoc_of s VA d = Some x -> vdoc_of s VB d = Some y ->
+  dominates (d_hlv x) (cv (d_hlv y)) = false -> dominates (d_hlv y) (cv (d_hlv x)) = false ->
+  d_del x && d_del y = false ->
+  vstatus_of s (VPull d) = (if lww_remote_wins x y then VRemoteWins else VLocalWins) /\
+  let s' := vstep (vstep s (VPull d)) (VPush d) in
+  vobs (vdoc_of s' VA d) = vobs (Some (lww_winner x y)) /\ vobs (vdoc_of s' VB d) = vobs (Some (lww_winner x y)).
+Proof. exact lww_winner_adopted. Qed.
+Print Assumptions C06_lww_winner_adopted.
+
+(* ---- the LWW policy: a tombstone beats a live document; otherwise the strictly greater value wins ---- *)
+Theorem C06_lww_policy : forall l i,
+  lww_remote_wins l i = true <->
+  (d_del i = true /\ d_del l = false) \/ (d_del i = d_del l /\ ver (d_hlv l) < ver (d_hlv i)).
+Proof. exact lww_policy_lemma. Qed.
+Print Assumptions C06_lww_policy.
+
+(* ---- ... and its winner does not depend on which side is local, unless both the tombstone flags and the values
+   are equal ---- *)
+Theorem C06_lww_symmetric : forall x y,
+  (d_del x <> d_del y \/ ver (d_hlv x) <> ver (d_hlv y)) -> lww_winner x y = lww_winner y x.
+Proof. exact lww_symmetric_lemma. Qed.
+Print Assumptions C06_lww_symmetric.
+
+(* ---- the equal-value case, honestly: the LOCAL document wins in BOTH orientations (so the symmetric statement is
+   false there: C06_Refuted.C06_lww_symmetric_equal_values_refuted).  With the fixed roles of this model that does
+   not matter -- C06_lww_converges has no premise on the values -- because only one side ever resolves. ---- *)
+Theorem C06_lww_equal_values_local_bias : forall x y,
+  d_del x = d_del y -> ver (d_hlv x) = ver (d_hlv y) -> lww_winner x y = x /\ lww_winner y x = y.
+Proof. exact lww_equal_values_local_lemma. Qed.
+Print Assumptions C06_lww_equal_values_local_bias.
+
+(* ---- after a resolution the stored vector has seen the current versions of both sides (a second offer of either
+   is answered "known") ---- *)
+Theorem C06_lww_resolution_dominates_both : forall l i, simple (d_hlv l) -> simple (d_hlv i) ->
+  dominates (d_hlv l) (cv (d_hlv i)) = false -> dominates (d_hlv i) (cv (d_hlv l)) = false ->
+  let r := if lww_remote_wins l i then resolve_remote_wins l i else resolve_local_wins l i in
+  dominates (d_hlv r) (cv (d_hlv l)) = true /\ dominates (d_hlv r) (cv (d_hlv i)) = true.
+Proof. exact resolution_dominates_both. Qed.
+Print Assumptions C06_lww_resolution_dominates_both.
+
+(* ---- caught-up peers (same current version, body, tombstone flag -- or no document on either side): Pull and Push
+   change nothing on either side and nothing is sent ---- *)
+Theorem C06_vv_caught_up_transfers_nothing : forall ops d,
+  let s := vrun vsys0 ops in
+  vobs (vdoc_of s VA d) = vobs (vdoc_of s VB d) ->
+  (forall q d', vdoc_of (vstep s (VPull d)) q d' = vdoc_of s q d') /\
+  (forall q d', vdoc_of (vstep s (VPush d)) q d' = vdoc_of s q d') /\
+  (vstatus_of s (VPull d) = VKnown \/ vstatus_of s (VPull d) = VNothing) /\
+  (vstatus_of s (VPush d) = VKnown \/ vstatus_of s (VPush d) = VNothing).
+Proof. exact vv_caught_up_transfers_nothing. Qed.
+Print Assumptions C06_vv_caught_up_transfers_nothing.
+
+(* ---- re-running the replication that has just run transfers nothing ---- *)
+Theorem C06_vv_rerun_transfers_nothing : forall ops d,
+  let s := vrun (vrun vsys0 ops) [VPull d; VPush d] in
+  (forall q d', vdoc_of (vstep s (VPull d)) q d' = vdoc_of s q d') /\
+  (forall q d', vdoc_of (vstep s (VPush d)) q d' = vdoc_of s q d') /\
+  (vstatus_of s (VPull d) = VKnown \/ vstatus_of s (VPull d) = VNothing) /\
+  (vstatus_of s (VPush d) = VKnown \/ vstatus_of s (VPush d) = VNothing).
+Proof. exact vv_rerun_transfers_nothing. Qed.
+Print Assumptions C06_vv_rerun_transfers_nothing.
+
+(* ---- a revision that was sent is never answered "already present": CheckChangeVersion filtered it before ---- *)
+Theorem C06_vv_never_cancelled : forall ops o, vstatus_of (vrun vsys0 ops) o <> VCancelled.
+Proof. exact vv_never_cancelled. Qed.
+Print Assumptions C06_vv_never_cancelled.
+
+(* ---- every local write succeeds (AddVersion never refuses the generated value) and its version is strictly above
+   every version of the writer's source that any copy of any document lists, on either side ---- *)
+Theorem C06_vv_local_write_fresh : forall ops p d body phys,
+  let s := vrun vsys0 ops in
+  exists x, vdoc_of (vstep s (VEdit p d body phys)) p d = Some x /\
+            d_body x = body /\ d_del x = false /\ src (d_hlv x) = vsrc p /\
+            (forall q d' y e, vdoc_of s q d' = Some y -> listed (d_hlv y) (vsrc p, e) -> e < ver (d_hlv x)).
+Proof. exact vv_local_write_fresh. Qed.
+Print Assumptions C06_vv_local_write_fresh.
+
+(* ---- reachable copies are consistent: no merge versions, a real source; the same current version on both sides means
+   the same body and tombstone flag; two copies that have each seen the other's current version hold the same one ---- *)
+Theorem C06_vv_reachable_consistent : forall ops d x y,
+  let s := vrun vsys0 ops in
+  vdoc_of s VA d = Some x -> vdoc_of s VB d = Some y ->
+  simple (d_hlv x) /\ simple (d_hlv y) /\
+  (cv (d_hlv x) = cv (d_hlv y) -> d_body x = d_body y /\ d_del x = d_del y) /\
+  (dominates (d_hlv x) (cv (d_hlv y)) = true -> dominates (d_hlv y) (cv (d_hlv x)) = true -> cv (d_hlv x) = cv (d_hlv y)).
+Proof. exact vv_reachable_consistent. Qed.
+Print Assumptions C06_vv_reachable_consistent.
+
+(* ---- documents are independent under the version-vector protocol too ---- *)
+Theorem C06_vv_documents_independent : forall s o q d, d <> vop_doc o -> vdoc_of (vstep s o) q d = vdoc_of s q d.
+Proof. exact vv_documents_independent. Qed.
+Print Assumptions C06_vv_documents_independent.
+
 (* ---- non-vacuity: a history with an equal-generation conflict resolved as "remote wins" on document 0
    and a "local wins" on document 1 (longer local branch), with a concrete collision-free digest ---- *)
 Definition ex_ops : list op :=
@@ -114,3 +230,24 @@ Proof.
   split; [exact mkdig_struct_inj|]. split; [repeat constructor; discriminate|].
   split; vm_compute; repeat split; try reflexivity; discriminate.
 Qed.
+
+(* ---- non-vacuity, version-vector protocol: document 0 -- the passive write is the later one (remote wins);
+   document 1 -- the active write is the later one (local wins, resolution pushed back); document 2 -- an OLDER
+   tombstone on the active side beats a newer edit; document 3 -- equal values (the local copy wins) ---- *)
+Definition ex_vops : list vop :=
+  [VEdit VA 0 2 10; VEdit VB 0 3 20; VEdit VB 1 2 30; VEdit VA 1 3 40;
+   VEdit VA 2 2 50; VPush 2; VDelete VA 2 60; VEdit VB 2 4 70; VEdit VA 3 5 80; VEdit VB 3 6 80].
+
+Example C06_vv_nonvacuous :
+  (let s := vrun vsys0 ex_vops in
+   vstatus_of s (VPull 0) = VRemoteWins /\ vstatus_of s (VPull 1) = VLocalWins /\
+   vstatus_of s (VPull 2) = VLocalWins /\ vstatus_of s (VPull 3) = VLocalWins /\
+   vstatus_of s (VPush 0) = VConflict /\
+   vobs (vdoc_of s VA 0) <> vobs (vdoc_of s VB 0)) /\
+  (let s := vrun (vrun vsys0 ex_vops) [VPull 0; VPush 0; VPull 1; VPush 1; VPull 2; VPush 2; VPull 3; VPush 3] in
+   vobs (vdoc_of s VB 0) = Some ((2, 20), 3, false) /\ vobs (vdoc_of s VA 0) = Some ((2, 20), 3, false) /\
+   vobs (vdoc_of s VB 1) = Some ((1, 40), 3, false) /\
+   vobs (vdoc_of s VB 2) = Some ((1, 60), 0, true) /\
+   vobs (vdoc_of s VB 3) = Some ((1, 80), 5, false)).
+Proof. vm_compute. repeat split; try reflexivity; discriminate. Qed.
+
